@@ -352,11 +352,11 @@ func probes(g geom, nPub int, blocks []blk, rnd func(int) int) []probe {
 
 // compareAttribution checks that the log-only model names exactly the model's owners at the probe points.
 // Returns the number of probes judged and, on the first mismatch, a class and description.
-func compareAttribution(g geom, nPub int, held map[string]blk, lm *logModel, focus []blk, rnd func(int) int) (int, string, string) {
+func compareAttribution(g geom, nPub int, he []lmEntry, lm *logModel, focus []blk, rnd func(int) int) (int, string, string) {
 	var blocks []blk
-	if len(held)+len(lm.live) <= 16 {
-		for _, b := range held {
-			blocks = append(blocks, b)
+	if len(he)+len(lm.live) <= 16 {
+		for _, e := range he {
+			blocks = append(blocks, e.B)
 		}
 		for _, e := range lm.live {
 			blocks = append(blocks, e.B)
@@ -364,27 +364,14 @@ func compareAttribution(g geom, nPub int, held map[string]blk, lm *logModel, foc
 	} else {
 		blocks = append(blocks, focus...)
 		// a sample of the others
-		all := make([]blk, 0, len(held)+len(lm.live))
-		keys := make([]string, 0, len(held))
-		for k := range held {
-			keys = append(keys, k)
+		for i := 0; i < 4 && len(he) > 0; i++ {
+			blocks = append(blocks, he[rnd(len(he))].B)
 		}
-		sort.Strings(keys)
-		for _, k := range keys {
-			all = append(all, held[k])
-		}
-		for _, e := range lm.live {
-			all = append(all, e.B)
-		}
-		for i := 0; i < 8 && len(all) > 0; i++ {
-			blocks = append(blocks, all[rnd(len(all))])
+		for i := 0; i < 4 && len(lm.live) > 0; i++ {
+			blocks = append(blocks, lm.live[rnd(len(lm.live))].B)
 		}
 	}
 	n := 0
-	he := make([]lmEntry, 0, len(held))
-	for sub, b := range held {
-		he = append(he, lmEntry{sub, b})
-	}
 	for _, pr := range probes(g, nPub, blocks, rnd) {
 		pub, port := pr.pub, pr.port
 		mo := ownersOf(he, pub, port)
@@ -552,4 +539,48 @@ func readFileFrom(path string, off *int64) []byte {
 	n, _ := f.ReadAt(b, *off)
 	*off += int64(n)
 	return b[:n]
+}
+
+// listOf renders an ownership map as a list (order irrelevant to the callers).
+func listOf(held map[string]blk) []lmEntry {
+	he := make([]lmEntry, 0, len(held))
+	for sub, b := range held {
+		he = append(he, lmEntry{sub, b})
+	}
+	return he
+}
+
+func listSet(l []lmEntry, sub string, b blk) []lmEntry {
+	for i := range l {
+		if l[i].Sub == sub {
+			l[i].B = b
+			return l
+		}
+	}
+	return append(l, lmEntry{sub, b})
+}
+
+func listDel(l []lmEntry, sub string) []lmEntry {
+	for i := range l {
+		if l[i].Sub == sub {
+			l[i] = l[len(l)-1]
+			return l[:len(l)-1]
+		}
+	}
+	return l
+}
+
+func entryHash(sub string, b blk) uint64 {
+	h := uint64(14695981039346656037)
+	mix := func(s string) {
+		for i := 0; i < len(s); i++ {
+			h = (h ^ uint64(s[i])) * 1099511628211
+		}
+		h = (h ^ 0xff) * 1099511628211
+	}
+	mix(sub)
+	mix(b.Pub)
+	h = (h ^ uint64(b.S)) * 1099511628211
+	h = (h ^ uint64(b.E)<<20) * 1099511628211
+	return h
 }
